@@ -71,10 +71,17 @@ PERSONALITIES = ("uniform", "starve_one_worker", "favour_one_worker", "filler_fi
 
 
 class Sched:
-    def __init__(self, rng=None, decisions=None, personality="uniform", step_cap=20000, time_cap=600.0):
+    def __init__(self, rng=None, decisions=None, personality="uniform", step_cap=20000, time_cap=600.0,
+                 line_p=0.0, line_decisions=None):
         self.rng = rng
         self.replay = list(decisions) if decisions is not None else None
         self.rpos = 0
+        # statement-level pre-emption inside helpers.py (sys.monitoring LINE events)
+        self.line_p = line_p
+        self.lreplay = list(line_decisions) if line_decisions is not None else None
+        self.lpos = 0
+        self.ldecisions = []
+        self.line_yields = 0
         self.personality = personality
         self.tasks = []
         self.by_ident = {}
@@ -147,6 +154,16 @@ class Sched:
                     break
         self.decisions.append(idx)
         return runnable[idx]
+
+    def ldecide(self):
+        """pre-empt at this source line of helpers.py?"""
+        if self.lreplay is not None:
+            d = self.lreplay[self.lpos] if self.lpos < len(self.lreplay) else 0
+            self.lpos += 1
+        else:
+            d = 1 if self.rng.random() < self.line_p else 0
+        self.ldecisions.append(d)
+        return bool(d)
 
     # -- dispatch -------------------------------------------------------------------
     def _runnable(self):
@@ -278,6 +295,39 @@ _SCHED = None
 
 def sched():
     return _SCHED
+
+
+_MON_ID = 4
+_mon_installed = False
+
+
+def _on_line(code, line):
+    s = _SCHED
+    if s is None or not (s.line_p or s.lreplay) or s.abort:
+        return None
+    me = s.by_ident.get(threading.get_ident())
+    if me is None or me.state != "running" or s.cur is not me:
+        return None
+    if s.ldecide():
+        s.line_yields += 1
+        s.point(f"line:{code.co_name}:{line}")
+    return None
+
+
+def install_line_hooks():
+    """Every source line of the helpers functions becomes a potential pre-emption point
+    (PEP 669 local LINE events: only these code objects are instrumented)."""
+    global _mon_installed
+    if _mon_installed:
+        return
+    mon = sys.monitoring
+    mon.use_tool_id(_MON_ID, "dsim")
+    mon.register_callback(_MON_ID, mon.events.LINE, _on_line)
+    H = boot.SK.helpers
+    for name in ("parallel_add", "parallel_merging", "_worker", "_merge_worker", "_fill_queue", "_log_worker",
+                 "attach_shared_memory"):
+        mon.set_local_events(_MON_ID, getattr(H, name).__code__, mon.events.LINE)
+    _mon_installed = True
 
 
 # ----------------------------------------------------------------------------------
@@ -578,8 +628,10 @@ def simulate(desc, rng=None):
     global _SCHED, _RUN
     H = boot.SK.helpers
     decisions = desc.get("decisions")
+    install_line_hooks()
     s = Sched(rng=rng, decisions=decisions, personality=desc.get("personality", "uniform"),
-              step_cap=desc.get("step_cap", 20000))
+              step_cap=desc.get("step_cap", 20000), line_p=desc.get("line_p", 0.0),
+              line_decisions=desc.get("line_decisions"))
     s.base_seed = desc.get("seed", 0)
     s.victim = desc.get("victim")
     _SCHED = s
@@ -625,6 +677,7 @@ def simulate(desc, rng=None):
         out.leftover = leftover
         s.drain()
     finally:
+        s.line_p, s.lreplay = 0.0, None
         boot.CLOCK.hook = None
         H.get_context, H.datetime = old
         _restore_factories(real)
